@@ -161,6 +161,7 @@ struct QSpec {
   };
   SpecKind kind;
   uint32_t cap = 0, k = 1, segs = 1;
+  bool failures_free = false; // weak executions (C03): empty/full verdicts are not among the guaranteed safety properties
   bool unordered = false; // diagnosis only: a pop may return any stored element (conservation + full/empty rules kept)
 
   uint64_t hash(const State& s) const {
@@ -168,6 +169,7 @@ struct QSpec {
     for (int i = 0; i < s.n; ++i) h = vh::hmix(h, s.v[i]);
     return h;
   }
+  bool equal(const State& a, const State& b) const { return a.n == b.n && memcmp(a.v, b.v, a.n) == 0; }
   static void remove_at(State& s, int i) {
     for (int j = i + 1; j < s.n; ++j) s.v[j - 1] = s.v[j];
     s.n--;
@@ -183,6 +185,7 @@ struct QSpec {
         return true;
       }
       // failed push
+      if (failures_free) return true;
       switch (kind) {
       case S_VYU: return o.weak || s.n >= cap;
       case S_NIKB: return (uint32_t)(s.n + o.overlap) >= cap; // every operation in progress may occupy a slot
@@ -200,6 +203,7 @@ struct QSpec {
         }
       return false;
     }
+    if (failures_free) return true;
     switch (kind) {
     case S_VYU: return o.weak || s.n == 0;
     case S_KK:
@@ -307,6 +311,11 @@ struct Adapter {
     }
   }
 };
+
+template <class Q>
+struct is_nikolaev : std::false_type {};
+template <class T, class... P>
+struct is_nikolaev<nikolaev_queue<T, P...>> : std::true_type {};
 
 template <class A>
 struct QHarness {
@@ -426,6 +435,20 @@ struct QHarness {
       }
     drain = c07 ? vrt::choose(4) == 0 : vrt::choose(8) != 0;
 
+    if (vrt::solo_mode()) {
+      // nikolaev queues promise lock-freedom only while fewer threads than slots (per node) operate on the queue
+      if constexpr (A::spec == S_NIKB) {
+        par.cap = 8;
+        if (nthreads > 4) nthreads = 4;
+      }
+      if constexpr (A::spec == S_FIFO && is_nikolaev<Q>::value) {
+        if ((unsigned)nthreads >= Q::entries_per_node) nthreads = (int)Q::entries_per_node - 1;
+        if (nthreads < 2) {
+          vrt::label("excluded:nikolaev_node_smaller_than_thread_count");
+          return;
+        }
+      }
+    }
     if (vrt::want_desc()) {
       vrt::desc("element=%s cap=%u k=%u segments=%u threads=%d drain=%d\n  prefix:", ET<E>::name, par.cap, par.k, par.segs, nthreads, (int)drain);
       for (int i = 0; i < nprefix; ++i) vrt::desc(" %s", prefix[i].kind == K_PUSH ? "push" : "pop");
@@ -485,6 +508,7 @@ struct QHarness {
     spec.cap = par.cap;
     spec.k = par.k;
     spec.segs = par.segs;
+    spec.failures_free = vrt::weak_mode();
     bool overlap_seen = false, verdict_under_overlap = false;
     int ok_pushes = 0;
     {
